@@ -474,6 +474,7 @@ def stray_jump_family(quick, rng, all_pres_depth=2):
     wrap = {
         "L": lambda n, b: "stel k%d = 0; zolang k%d < 2 { k%d += 1; %s }" % (n, n, n, b),
         "F": lambda n, b: "functie f%d() { stel loc%d = 7; %s; loc%d } f%d();" % (n, n, b, n, n),
+        "G": lambda n, b: "functie g%d() { %s } g%d();" % (n, b, n),          # a function without locals of its own
         "B": lambda n, b: "{ %s }" % b,
         "I": lambda n, b: "als t >= 0 { %s }" % b,
         "E": lambda n, b: "als t < 0 { } anders { %s }" % b,
@@ -481,7 +482,7 @@ def stray_jump_family(quick, rng, all_pres_depth=2):
     out = []
     shapes = []
     for d in (1, 2, 3, 4):
-        for sh in itertools.product("LFBIE" if d < 3 else "LFBI", repeat=d):
+        for sh in itertools.product(("LFGBIE" if all_pres_depth >= 3 else "LFBIE") if d < 3 else ("LFGBI" if (all_pres_depth >= 3 and d == 3) else "LFBI"), repeat=d):
             shapes.append(sh)
     if quick:
         shapes = [s for s in shapes if len(s) <= 3] + rng.sample([s for s in shapes if len(s) == 4], 40)
